@@ -29,6 +29,7 @@ SchObsInit(c) ==
   [ sch |-> InitSched(c),
     known |-> InitSched(c),                          \* every schedule ever present (specs by sid)
     pollN |-> [i \in DOMAIN c.srcs |-> 0],
+    pollT |-> [i \in DOMAIN c.srcs |-> -1],
     exp |-> {},                                      \* <<sid, minute>> cron occurrences that must be sent
     ck |-> <<>>,                                     \* cron kick attempts: <<sid, minute>>
     once |-> [x \in {} |-> 0],                       \* sid -> [T, firstDue, kicks (times), oks]
@@ -45,7 +46,7 @@ FsOf(o, sid) == Get(o.fs, sid, Fs0)
 
 SchFold(c, o, ev) ==
   LET o1 == [o EXCEPT !.now = ev.t] IN
-  CASE ev.e = "poll" -> [o1 EXCEPT !.pollN[ev.src] = ev.n, !.lastRound = MinuteOf(c, ev.t)]
+  CASE ev.e = "poll" -> [o1 EXCEPT !.pollN[ev.src] = ev.n, !.pollT[ev.src] = ev.t, !.lastRound = MinuteOf(c, ev.t)]
     [] ev.e = "listed" ->
          LET te == ev.t            \* evaluation happens when the slowest source has answered
              listed == {s \in o.sch : s.src = ev.src /\ s.sid \in RangeS(ev.ids)}
@@ -88,9 +89,10 @@ SchCheck(c, op, o, ev) ==
       isKnown(sid) == \E s \in o.known : s.sid = sid
   IN
   (* ---------------- C15 ---------------- *)
-     (IF ev.e = "poll" /\ ev.t # (IF ev.n = 1 THEN c.start ELSE c.minute * (ev.n - 1)) THEN {"C15_PollTimes"} ELSE {})
+     (IF ev.e = "poll" /\ ev.t # (IF ev.n = 1 THEN c.start ELSE (MinuteOf(c, op.pollT[ev.src] + MaxLat(c)) + 1) * c.minute)
+      THEN {"C15_PollTimes"} ELSE {})
   \cup (IF ev.e = "poll" /\ ev.n # op.pollN[ev.src] + 1 THEN {"C15_PollTimes"} ELSE {})
-  \cup (IF ev.e = "eot" /\ \E i \in DOMAIN c.srcs : o.pollN[i] # 1 + (c.horizon \div c.minute) THEN {"C15_PollsContinue"} ELSE {})
+  \cup (IF ev.e = "eot" /\ \E i \in DOMAIN c.srcs : o.pollT[i] + MaxLat(c) + c.minute < ev.t THEN {"C15_PollsContinue"} ELSE {})
   \cup (IF ev.e = "eot" /\ ~ev.ok THEN {"C15_LoopDied"} ELSE {})
   (* cron: when a new round starts (or at the end) every earlier minute is settled *)
   \cup (IF (ev.e = "poll" /\ MinuteOf(c, ev.t) > op.lastRound) \/ ev.e = "eot"
